@@ -151,8 +151,35 @@ def seg_lines(lines, sg):
 
 
 def validate(path, wd, tag):
-    """Returns dict(lines, segments, accepted_segments, states, violations=[(clause, seg, line)], inconclusive=[...])."""
+    """Validates a trace file in chunks of whole scenarios: TLC cannot follow a behaviour of 65 536 or more states, and
+    a file of a thousand scenarios with their silent steps is longer than that."""
     lines = vlib.read_trace(path)
+    chunks, cur, segs = [], [], set()
+    for x in lines:
+        sg = vlib.seg_of(x)
+        if sg not in segs and len(cur) >= 6000:
+            chunks.append(cur)
+            cur = []
+        segs.add(sg)
+        cur.append(x)
+    if cur:
+        chunks.append(cur)
+    if len(chunks) <= 1:
+        return validate_chunk(lines, wd, tag)
+    tot = dict(lines=len(lines), segments=len(segs), accepted_segments=0, states=0, violations=[], inconclusive=[])
+    for i, ch in enumerate(chunks):
+        r = validate_chunk(ch, wd, "%s.%d" % (tag, i))
+        tot["accepted_segments"] += r["accepted_segments"]
+        tot["states"] += r["states"]
+        tot["violations"] += r["violations"]
+        tot["inconclusive"] += r["inconclusive"]
+        if "unjudged" in r:
+            tot["unjudged"] = tot.get("unjudged", 0) + r["unjudged"]
+    return tot
+
+
+def validate_chunk(lines, wd, tag):
+    """Returns dict(lines, segments, accepted_segments, states, violations=[(clause, seg, line)], inconclusive=[...])."""
     res = dict(lines=len(lines), segments=len(set(vlib.seg_of(x) for x in lines)), accepted_segments=0, states=0,
                violations=[], inconclusive=[])
     cur = lines
